@@ -124,12 +124,12 @@ func BuildOwned(mods *pbsubstreams.Modules, req Request, cfg *Config) (*Owned, l
 		cancel()
 		return nil, nil, err
 	}
-	execOutputConfigs, err := execout.NewConfigs(cacheStore, execGraph.UsedModules(), execGraph.ModuleHashes(), cfg.Seg, 0, zap.NewNop())
+	execOutputConfigs, err := execout.NewConfigs(cacheStore, execGraph.UsedModules(), execGraph.ModuleHashes(), cfg.Seg, bstream.GetProtocolFirstStreamableBlock, zap.NewNop())
 	if err != nil {
 		cancel()
 		return nil, nil, err
 	}
-	storeConfigs, err := store.NewConfigMap(cacheStore, execGraph.Stores(), execGraph.ModuleHashes(), 0)
+	storeConfigs, err := store.NewConfigMap(cacheStore, execGraph.Stores(), execGraph.ModuleHashes(), bstream.GetProtocolFirstStreamableBlock)
 	if err != nil {
 		cancel()
 		return nil, nil, err
